@@ -175,9 +175,8 @@ func verifLemmaAbsCaptureTimeRoundTrip(a AbsCaptureTimeExtension, b AbsCaptureTi
 
 // 32.32 fixed-point NTP timestamp of an instant at or after the Unix epoch.
 //@ spec toNtpTime
-//@   requires 0 <= unixnano(t)
 //@   reveal ntp(unixnano(t))
-//@   ensures def [C18]: int(result0) == ntp(unixnano(t))
+//@   ensures def [C18]: 0 <= unixnano(t) ==> int(result0) == ntp(unixnano(t))
 //@ end
 // Instant of an NTP timestamp at or after the Unix epoch.
 //@ spec toTime
@@ -236,8 +235,8 @@ func verifLemmaClockOffsetRoundTrip(t time.Time, d time.Duration) *time.Duration
 // instant to within the 2^-18 s (3814.7 ns) resolution of the field plus the
 // 1 ns of the NTP conversion, across 64 s wraps.
 //@ spec NewAbsSendTimeExtension
-//@   requires 0 <= unixnano(sendTime)
-//@   ensures def [C18]: result0 != nil && fresh(result0) && int(result0.Timestamp) == ntp(unixnano(sendTime)) / 16384
+//@   ensures owned [C18,C06]: result0 != nil && fresh(result0)
+//@   ensures def [C18]: 0 <= unixnano(sendTime) ==> int(result0.Timestamp) == ntp(unixnano(sendTime)) / 16384
 //@ end
 // Estimate splices the 24-bit field into the receive time's NTP value (bits
 // 14..37) and steps back one 64 s period when that lands after the receive time.
@@ -613,3 +612,42 @@ func verifLemmaHeaderRoundTrip(h Header) (b Header, n int, err error) {
 func verifLemmaLegacyWithoutElementMarshals(h Header) (buf []byte, err error) {
 	return h.Marshal()
 }
+
+// ===== C06: packetizer =====
+//
+// The payloader and the sequencer are interface values: their contracts below
+// are assumptions about every implementation (the sequencer of this package is
+// verified against its own, stronger contract under C07; fragment sizes are
+// C08's subject). timegen is a function value: whatever instant it returns.
+//@ trusted-spec (github.com/pion/rtp.Payloader).Payload
+//@ end
+//@ trusted-spec (github.com/pion/rtp.Sequencer).NextSequenceNumber
+//@ end
+
+//@ spec (*packetizer).Packetize
+//@   requires p.Payloader != nil && p.Sequencer != nil
+//@   modifies p.Timestamp
+//@   loop 0: invariant built [C06]: rangeindex <= len(payloads) - 1 && len(packets) == len(payloads) && fresh(packets) && p.Timestamp == old(p.Timestamp) && (forall k :: 0 <= k && k <= rangeindex ==> packets[k] != nil && fresh(packets[k]) && packets[k].Header.Version == 2 && !packets[k].Header.Padding && packets[k].PaddingSize == 0 && !packets[k].Header.Extension && len(packets[k].Header.Extensions) == 0 && cap(packets[k].Header.Extensions) == 0 && packets[k].Header.PayloadType == p.PayloadType && packets[k].Header.SSRC == p.SSRC && packets[k].Header.Timestamp == p.Timestamp && len(packets[k].Header.CSRC) == 0 && (packets[k].Header.Marker <==> k == len(payloads) - 1) && sameSlice(packets[k].Payload, payloads[k]))
+//@   loop 0: invariant distinct [C06]: forall a, b :: 0 <= a && a < b && b <= rangeindex ==> !sameobj(packets[a], packets[b])
+//@   ensures empty [C06]: len(payload) == 0 ==> result0 == nil && p.Timestamp == old(p.Timestamp)
+//@   ensures timestamp_advances [C06]: len(payload) > 0 ==> int(p.Timestamp) == (int(old(p.Timestamp)) + int(samples)) % 4294967296
+//@   ensures headers [C06]: forall k :: 0 <= k && k < len(result0) ==> result0[k] != nil && result0[k].Header.Version == 2 && !result0[k].Header.Padding && result0[k].PaddingSize == 0 && result0[k].Header.PayloadType == p.PayloadType && result0[k].Header.SSRC == p.SSRC && result0[k].Header.Timestamp == old(p.Timestamp) && len(result0[k].Header.CSRC) == 0 && (result0[k].Header.Marker <==> k == len(result0) - 1)
+//@   ensures within_mtu [C06]: forall k :: 0 <= k && k < len(result0) && len(result0[k].Payload) <= int(p.MTU) - 12 ==> hdrSize(result0[k].Header) + len(result0[k].Payload) <= int(p.MTU)
+//@   ensures no_extension_before_last [C06]: forall k :: 0 <= k && k < len(result0) - 1 ==> !result0[k].Header.Extension && len(result0[k].Header.Extensions) == 0
+//@   ensures no_send_time [C06]: len(result0) > 0 && p.extensionNumbers.AbsSendTime == 0 ==> !result0[len(result0) - 1].Header.Extension && len(result0[len(result0) - 1].Header.Extensions) == 0
+//@   ensures send_time_on_last [C06]: len(result0) > 0 && p.extensionNumbers.AbsSendTime != 0 ==> result0[len(result0) - 1].Header.Extension && len(result0[len(result0) - 1].Header.Extensions) == 1 && int(result0[len(result0) - 1].Header.Extensions[0].id) == p.extensionNumbers.AbsSendTime % 256 && len(result0[len(result0) - 1].Header.Extensions[0].payload) == 3 && fresh(result0[len(result0) - 1].Header.Extensions[0].payload)
+//@ end
+
+//@ spec (*packetizer).GeneratePadding
+//@   requires p.Sequencer != nil
+//@   loop 0: invariant built [C06]: 0 <= i && i <= int(samples) && len(packets) == int(samples) && fresh(packets) && (forall k :: 0 <= k && k < i ==> packets[k] != nil && fresh(packets[k]) && packets[k].Header.Version == 2 && packets[k].Header.Padding && packets[k].PaddingSize >= 1 && !packets[k].Header.Extension && !packets[k].Header.Marker && packets[k].Header.PayloadType == p.PayloadType && packets[k].Header.SSRC == p.SSRC && packets[k].Header.Timestamp == p.Timestamp && len(packets[k].Header.CSRC) == 0 && len(packets[k].Payload) == 0)
+//@   loop 0: decreases int(samples) - i
+//@   ensures none [C06]: samples == 0 ==> result0 == nil
+//@   ensures count [C06]: samples > 0 ==> len(result0) == int(samples)
+//@   ensures padding_only [C06]: forall k :: 0 <= k && k < len(result0) ==> result0[k] != nil && result0[k].Header.Version == 2 && result0[k].Header.Padding && result0[k].PaddingSize >= 1 && !result0[k].Header.Extension && !result0[k].Header.Marker && result0[k].Header.PayloadType == p.PayloadType && result0[k].Header.SSRC == p.SSRC && result0[k].Header.Timestamp == p.Timestamp && len(result0[k].Header.CSRC) == 0 && len(result0[k].Payload) == 0
+//@ end
+
+//@ spec (*packetizer).SkipSamples
+//@   modifies p.Timestamp
+//@   ensures gap [C06]: int(p.Timestamp) == (int(old(p.Timestamp)) + int(skippedSamples)) % 4294967296
+//@ end
